@@ -298,6 +298,7 @@ def _worker(args):
     mod = importlib.import_module(modname)
     prop = getattr(mod, clsname)()
     prop.pool = pool
+    prop.seed, prop.tier = seed, tier      # for generators that need shard-independent randomness
     res = dict(n=0, keys=set(), mism=[], samples=[], dist={}, cov=set(), err=None, truncated=False)
     try:
         prop.setup()
